@@ -1,3 +1,25 @@
+#[allow(unused_imports)] use crate::arith_montgomery::{ol_zn_n, ol_zn_n_spec};
 #[allow(unused_imports)] use vstd::arithmetic::{div_mod::*, power2::*, mul::*};
 #[allow(unused_imports)] use vstd::std_specs::ops::*;
 #[allow(unused_imports)] use vstd::std_specs::cmp::*;
+
+#[allow(unused_imports)] use vstd::arithmetic::power::*;
+verus! {
+/// product of the first i entries of xs
+pub open spec fn xs_prod(xs: Seq<Uint>, i: int) -> nat
+    decreases i
+{
+    if i <= 0 { 1 } else { xs_prod(xs, i - 1) * uv(xs[i - 1]) }
+}
+
+/// contribution of one (prime, exponent) entry to b: p^(k/2); the sign -1 contributes 1
+pub open spec fn fac_half(f: (i64, u64)) -> nat {
+    if f.0 == -1 { 1 } else { pow(f.0 as int, (f.1 / 2) as nat) as nat }
+}
+
+pub open spec fn facs_prod(fs: Seq<(i64, u64)>, i: int) -> nat
+    decreases i
+{
+    if i <= 0 { 1 } else { facs_prod(fs, i - 1) * fac_half(fs[i - 1]) }
+}
+} // verus!
